@@ -98,6 +98,17 @@ func TestVerifC04(t *testing.T) {
 		}
 	}
 
+	// ---- part C: charges of the REAL host calls (10 each; transfer 10 + l, out-of-gas iff the gas cannot pay) ------
+	nh := h.N(8000, 150000)
+	for i := 0; i < nh; i++ {
+		if !h.Mine("hostcharge", i) {
+			continue
+		}
+		h.CaseLight("hostcharge", i)
+		vRunHostSequence(h, "hostcharge", i, h.Rng("hostcharge", i), vMonitors{charge: true, transferBias: i%2 == 0})
+		h.Distinct("hostcharge", i)
+	}
+
 	// ---- part B: reported gas usage of Psi_M, including limits >= 2^63 -------------------------
 	bigLimits := []uint64{1 << 31, 1 << 32, 1 << 62, 1<<63 - 1, 1 << 63, 1<<63 + 1, 1<<64 - 1}
 	nm := h.N(3000, 50000)
